@@ -363,7 +363,7 @@ pub fn crash_check(which: Which, tier: Tier) -> i32 {
                 if !rec.dump.problems.is_empty() {
                     let class = format!("read_failed_after_recovery:{}", err_class(&rec.dump.problems[0]));
                     rep.outcome(&class);
-                    if which == Which::C02 {
+                    if which == Which::C02 || info.last_acked_tx > 0 {
                         rep.violation(Violation { class, kinds: with_in(&kinds_v, &in_op), replay, detail: rec.dump.problems.join("; ") });
                     }
                     continue;
@@ -399,7 +399,43 @@ pub fn crash_check(which: Which, tier: Tier) -> i32 {
                             }
                         }
                         match matched {
-                            Some(p) => rep.outcome(&format!("prefix(behind={})", hi - p)),
+                            Some(p) => {
+                                rep.outcome(&format!("prefix(behind={})", hi - p));
+                                // second round: one more commit and a clean restart must leave exactly
+                                // prefix p plus that commit (no resurrected or merged transaction)
+                                let post = image_hash(&read_dir_image(&rec.sut.dir));
+                                if cont_seen.insert((post, p, true)) {
+                                    rep.bump("continuations", 1);
+                                    let mut rec = rec;
+                                    let m = GraphModel::default();
+                                    let mk = Op::Tx(vec![Op::CreateNode { e: 900, labels: vec!["M"] }, Op::SetNodeProp { e: 900, k: "k", v: Val::I(7) }, Op::CreateEdge { s: 900, t: "R", d: 900 }]);
+                                    let mut kv = with_in(&kinds_v, &in_op);
+                                    kv.push("continue:Tx".into());
+                                    let res = rec.sut.apply(&mk, &m).and_then(|_| rec.sut.apply(&Op::DropOpen, &m));
+                                    match res {
+                                        Err(e) => {
+                                            let class = format!("second_round_failed:{}", err_class(&e));
+                                            rep.outcome(&class);
+                                            rep.violation(Violation { class, kinds: kv, replay: replay.clone(), detail: e });
+                                        }
+                                        Ok(()) => {
+                                            let d = rec.sut.dump(&ctr_spec());
+                                            let want = refs[p].as_ref().unwrap();
+                                            let marker_ok = d.problems.is_empty()
+                                                && d.nodes.get(&900).is_some_and(|n| n.p1.get("k").map(|s| s.as_str()) == Some("Int(7)") && n.labels.contains("M"))
+                                                && d.eo.get(&(900, "R".to_string(), 900)) == Some(&1);
+                                            if !marker_ok {
+                                                rep.outcome("second_round:marker_partial");
+                                                rep.violation(Violation { class: "second_round:marker_partial".into(), kinds: kv, replay: replay.clone(), detail: format!("{:?} problems={:?}", d.nodes.get(&900), d.problems) });
+                                            } else if let Some((c, dd)) = strip_marker(want, 900).diff(&strip_marker(&d, 900)) {
+                                                let class = format!("second_round:not_a_prefix:{c}");
+                                                rep.outcome(&class);
+                                                rep.violation(Violation { class, kinds: kv, replay: replay.clone(), detail: dd });
+                                            }
+                                        }
+                                    }
+                                }
+                            }
                             None => {
                                 // classify against the nearest reference
                                 let near = refs.get(hi).and_then(|r| r.as_ref()).or_else(|| refs.iter().rev().flatten().next());
@@ -705,6 +741,23 @@ pub fn c08(tier: Tier) -> i32 {
                     }
                 }
             }
+            // a failed operation can simply be issued again (the fault was one-shot): it must now
+            // succeed and take full effect, live and after reopen (catches state leaked by the failure)
+            let mut retried = false;
+            if f >= 1 && !is_reopen_op && res.is_err() {
+                if let Err(e) = sut.apply(&h[f - 1], &model) {
+                    report(format!("retry_of_failed_op_rejected:{}", err_class(&e)), e);
+                    continue;
+                }
+                retried = true;
+                let live2 = strip_marker(&sut.dump(&ctr_spec()), marker);
+                if let Some(a) = &after {
+                    if let Some((c, d)) = a.diff(&live2) {
+                        report(format!("retry_of_failed_op_partial:{c}"), d);
+                        continue;
+                    }
+                }
+            }
             // marker transaction
             let m = GraphModel::default();
             let mk = Op::Tx(vec![Op::CreateNode { e: marker, labels: vec!["M"] }, Op::SetNodeProp { e: marker, k: "k", v: Val::I(7) }]);
@@ -734,7 +787,7 @@ pub fn c08(tier: Tier) -> i32 {
             let lo = f.saturating_sub(1);
             let hi = f.min(h.len());
             let mut matched = false;
-            for p in [lo, hi] {
+            for p in if retried { vec![hi] } else { vec![lo, hi] } {
                 if let Some(Some(r)) = reopen_refs.get(p) {
                     if r.diff(&stripped).is_none() {
                         matched = true;
